@@ -351,7 +351,7 @@ def build_jobs(tier, seed):
     root = CTX["root"]
     configs = prepare(tier, seed, root)
     CTX["refs"] = None
-    nh = 640 if tier == "quick" else 12000
+    nh = 640 if tier == "quick" else 8000
     per = 10 if tier == "quick" else 40
     jobs = [{"first": f, "n": min(per, nh - f), "seed": seed, "tier": tier} for f in range(0, nh, per)]
     rng = random.Random(derive_seed(seed, PROP, "iso"))
